@@ -102,6 +102,11 @@ def snapshot(b, hist_prev):
                  hist_len=len(p.history),
                  hist_new=[parse_event(e) for e in p.history[hist_prev.get(pid, 0):]],
                  queue=[(o.order_id, o.asset, int(o.quantity)) for o in common.queued_orders(b.open_orders[pid])])
+        # the exported event trail (history_to_df) has one row per event of the history
+        try:
+            d['hist_df_len'] = int(len(p.history_to_df()))
+        except Exception as e:
+            d['hist_df_len'] = {'error': type(e).__name__}
         # API-level observations
         try:
             api = b.get_portfolio_as_dict(pid)
